@@ -19,7 +19,7 @@ RULE = ('random lenses x every cell of aperture kind (EPD, imageFNO, objectNA) x
         'distribution case with >= 7 points; distinct = distinct case hash')
 TIERS = {'quick': dict(shards=6, cases=80), 'thorough': dict(shards=16, cases=2000)}
 MIN_NONTRIVIAL = {'quick': 150, 'thorough': 2000}
-MIN_EVALS = {'aim-at-pupil-point': 100, 'origin-height-field': 20, 'direction-angle-field': 20, 'unit-intensity': 100,
+MIN_EVALS = {'launch-towards-lens': 100, 'aim-at-pupil-point': 100, 'origin-height-field': 20, 'direction-angle-field': 20, 'unit-intensity': 100,
              'zero-path': 100, 'wavelength': 100, 'rejected-combination': 25, 'distribution-count': 40,
              'distribution-in-unit-disk': 40, 'vignetting-shrinks': 20, 'telecentric-chief-parallel': 5,
              'telecentric-rim-na': 5}
@@ -234,6 +234,14 @@ def check_case(case, rec):
     nrm = np.abs(L0 ** 2 + M0 ** 2 + N0 ** 2 - 1)
     rec.check('unit-launch-direction', bool(np.all(nrm < 1e-12)), msg='launch direction not unit')
     scale = max(1.0, float(np.max(np.abs(P.z))))
+    # every launched ray travels towards the lens (vertex 1 is at z = 0, launch points are in front of it)
+    fwd = bool(np.all(N0 > 0))
+    epl_lib = float(np.ravel(lens.paraxial.EPL())[0]) if not tele else math.inf
+    behind = (not tele) and bool(np.all(epl_lib < z0))
+    rec.check('launch-towards-lens', fwd, key='launch-towards-lens' + (':entrance-pupil-behind-launch-point' if behind else ''),
+              msg=f'launched rays travel away from the lens (N={N0[:3]}, launch z={z0[0]}, EPL={epl_lib})')
+    if behind:
+        rec.cls('entrance-pupil-behind-launch-point')
     if tele:
         na = spec['aperture'][1]
         centre = (Px == 0) & (Py == 0)
